@@ -4,7 +4,8 @@ Space: generated DEX files with one class each; class name = 'L' + '/'.join(segm
 segments over {a, .., ., "", x*250} (155 names), crossed with method names {m, ../e, a/b, .., x*300, /abs};
 plus parameter/return types whose descriptors contain '..' segments.  `export_apps_to_format` (the decompile command's
 worker) is called directly with a duck-typed session yielding the real (vm, analysis); the output directory is nested
-four levels below a scratch root, so every escape by up to three '..' stays observable inside the scratch root.
+eight levels below a scratch root, so every escape by up to seven '..' stays observable inside the scratch root
+(the space contains chains of up to six leading '..' segments).
 Oracle: after the call (whether it returned or raised), every file and directory that exists under the scratch root
 lies inside the output directory.  Exceptions are allowed, escapes are not.
 """
@@ -22,12 +23,12 @@ LEVEL = "exploration"
 RULE = ("all class names of 1..3 segments over {a,'..','.','',x*250} x 6 method names (+ '..' in parameter types); one export per "
         "(class name, method name); the real file system is walked afterwards; non-trivial = the name contains a '..', '.', empty, "
         "over-long or '/'-bearing component; distinct by (class name, method name)")
-ASSUMPTIONS = ["the sandbox is a scratch directory created by the check; escapes by more than three '..' levels are outside the space",
+ASSUMPTIONS = ["the sandbox is a scratch directory created by the check; escapes by more than seven '..' levels are outside the space",
                "export_apps_to_format is the code path of `androguard decompile` (cli/main.py); the click wrapper is not exercised"]
 MANIFEST = {
     "engine": "E2-structures",
     "technique": "bounded exhaustive enumeration of hostile class/method names in generated DEX files, real file-system walk as oracle",
-    "text": "Every class name of up to three path segments over {a, .., ., empty, 250 x} combined with six method names is "
+    "text": "Every class name of up to three path segments over {a, .., ., empty, 250 x} (plus climbing chains of 3-6 leading '..') combined with six method names is "
             "written into a real DEX file and exported with the real decompile worker into a sandbox; every path created must lie "
             "inside the requested output directory.",
     "note": "Trusted: os.walk of the scratch root; gen/dexgen.",
@@ -42,6 +43,12 @@ def class_names():
     for n in (1, 2, 3):
         for segs in itertools.product(range(len(SEGS)), repeat=n):
             out.append(segs)
+    # deeper climbing chains: k = 3..6 leading '..' (optionally behind an empty or '.' first segment) followed by 'a'
+    DD, DOT, EMPTY, A = SEGS.index(".."), SEGS.index("."), SEGS.index(""), SEGS.index("a")
+    for k in (3, 4, 5, 6):
+        for lead in ((), (EMPTY,), (DOT,), (A,)):
+            out.append(tuple(lead) + (DD,) * k + (A,))
+            out.append(tuple(lead) + (DD,) * k)
     return out
 
 
@@ -102,7 +109,7 @@ def judge(case):
     model, cname = build(case)
     raw = G.build(model)
     root = tempfile.mkdtemp(prefix="verif_c37_")
-    out = os.path.join(root, "l1", "l2", "l3", "out")
+    out = os.path.join(root, "l1", "l2", "l3", "l4", "l5", "l6", "l7", "out")
     os.makedirs(os.path.dirname(out))
     cwd = os.getcwd()
     exc = None
@@ -149,8 +156,8 @@ def shards(ctx):
 
 
 def space(ctx):
-    return {"segments": ["a", "..", ".", "", "x*250"], "max_segments": 3, "class_names": len(class_names()),
-            "method_names": [m[:12] for m in MNAMES], "exports": sum(1 for _ in cases(ctx)), "output_nesting": 4}
+    return {"segments": ["a", "..", ".", "", "x*250"], "max_segments": 3, "climbing_chains": "3..6 leading '..' behind {nothing, empty, '.', 'a'}, with and without a final name", "class_names": len(class_names()),
+            "method_names": [m[:12] for m in MNAMES], "exports": sum(1 for _ in cases(ctx)), "output_nesting": 8}
 
 
 def run_shard(ctx, shard):
